@@ -37,6 +37,8 @@ func checkC02(c *Ctx, r *Report) {
 	c02R4(c, r, e, fns)
 	c02R5(c, r, e, scope, fns)
 	borrow(c, r, c01Sections, "C01.R2.sections-reset", "C02.R2.sections-reset", 1, "every success return of Msg.unpack has assigned all four sections: nothing in the returned message is left over from an earlier input", nil, "the returned message then holds records that do not lie inside the input")
+	c02NilResults(c, r, "C02.R4.nil-results", fns)
+	c02PrintFormatted(c, r, "C02.R5.print-formatted")
 }
 
 func c02R1(c *Ctx, r *Report) {
